@@ -10,7 +10,8 @@ Container layer (structure of every WritePayload, DESIGN §3 E6): see nopsa/encr
   WL, WO, NR ...
 """
 from .. import facts, ilrules, report
-from .. import encrules
+from .. import encrules, tablerules
+from . import c16
 
 
 def rules(chk, db):
@@ -27,12 +28,15 @@ def rules(chk, db):
     encrules.write_rules(chk, db, want=('LEN', 'ELT', 'GRD'))
     chk.rule('NR.w', 'no run-time narrowing integral conversion in any WritePayload/Size (lengths stay in SizeType)', minimum=10)
     encrules.narrowing(chk, db, 'NR.w', {'WritePayload', 'Size', 'Write'})
+    # table layout: hash, count of non-empty entries, per entry id + byte size + value + padding to the declared size
+    tablerules.rules(chk, db, {'TW', 'TE'})
+    c16.rules(chk, db, prefix='BW.', only={'nop::BoundedWriter'})
     chk.rule('CO', 'wrapper encoders are composed of exactly the documented component encodings', minimum=30)
     encrules.composition(chk, db, 'CO', ('WritePayload', 'Prefix'))
 
 
 def run(chk, db):
-    facts.gate(chk, db, ['nop/base/'])
+    facts.gate(chk, db, ['nop/base/', 'nop/utility/bounded_writer.h'])
     rules(chk, db)
     chk.explanation = (
         'Integer layer: each Prefix function is shown to be piecewise constant (its parameter occurs only in comparisons with constants) '
